@@ -292,6 +292,43 @@ _IRRED = {2: 0b111, 3: 0b1011, 4: 0b10011, 5: 0b100101, 6: 0b1000011, 7: 0b10000
           8: 0b100011011}
 
 
+def selftest_vectors(path=None):
+    """Check the model against vectors/ec2.json ONLY (standard DSTU 4145 curves)."""
+    import json
+    import os
+    if path is None:
+        path = os.path.join(os.path.dirname(os.path.abspath(__file__)), "vectors", "ec2.json")
+    with open(path) as fp:
+        doc = json.load(fp)
+    n = 0
+    for v in doc["vectors"]:
+        assert v["kind"] == "dstu_curve"
+        f = 1
+        for e in v["field"]:
+            f |= 1 << e
+        m, cof = v["field"][0], v["cofactor"]
+        B = int.from_bytes(bytes.fromhex(v["B_le"]), "little")
+        order = int.from_bytes(bytes.fromhex(v["n_le"]), "little")
+        E = Curve2(f, v["A"], B)
+        assert gf2_is_irreducible(f) and E.is_valid(), v["name"]
+        assert (cof == 2) == (E.F.trace(v["A"]) == 1), v["name"]
+        assert (cof * order - (1 << m) - 1) ** 2 <= 4 * (1 << m), v["name"]
+        if "P_le" in v:
+            G = tuple(int.from_bytes(bytes.fromhex(c), "little") for c in v["P_le"])
+            assert E.is_on(G) and E.has_order(G, order), v["name"]
+        x, found = 2, 0
+        while found < 2:
+            for Q in E.lift_x(x):
+                assert E.is_on(Q) and E.mul(cof * order, Q) is None, v["name"]
+                R = E.mul(cof, Q)
+                assert R is None or E.has_order(R, order)
+                assert E.add(Q, E.neg(Q)) is None and E.sub(E.dbl(Q), Q) == Q
+                found += 1
+            x += 1
+        n += 1
+    return n
+
+
 def selftest():
     import random
     rnd = random.Random(2)
@@ -344,6 +381,7 @@ def selftest():
 
 if __name__ == "__main__":
     if "--selftest" in sys.argv:
-        print("OK %d vectors" % selftest())
+        n = selftest()
+        print("OK %d vectors" % (n + selftest_vectors()))
         sys.exit(0)
     print(__doc__)
